@@ -80,3 +80,16 @@ PROPS['C14'] = dict(
          'distinct = distinct inputs, non-trivial = non-empty value list / non-empty range',
     assumptions=TRUST,
 )
+
+PROPS['C12'] = dict(
+    bindings=[dict(drv='C12', trace=TB),
+              dict(drv='C12b', trace=dict(module='Trace_Builder', cfg='Trace_Builder.cfg'), shards=dict(quick=4, thorough=8),
+                   gen=dict(quick=[sim('Gen_Builder', 'Gen_Builder.cfg', 300, 16, 'bld')],
+                            thorough=[sim('Gen_Builder', 'Gen_Builder.cfg', 8000, 16, 'bld', shards=8)]))],
+    mc=dict(quick=[mc('MC_Builder', 'MC_Builder.cfg', expect_min_distinct=100000)], thorough=[mc('MC_Builder', 'MC_Builder_t.cfg', expect_min_distinct=100000)]),
+    need_kinds=['of', 'ofmany', 'toarray', 'bld'],
+    rule='of: ascending position lists (empty, word-boundary positions, large gaps) x optional n (negative, below/at/above last+1, 64k, 64k+-1) with Get/Get1/SafeGet/SafeGet1 probes at every listed position +-1 and outside; '
+         'ofmany: 0-4 segments incl. size 0 and overshooting last segments; toarray: pattern bitmaps with Of(ToArray(b)); bld: Builder histories (random and TLC-simulated) with the projected state after every call; '
+         'distinct = distinct inputs, non-trivial = non-empty list or explicit n / at least one call after NewBuilder',
+    assumptions=TRUST + ['position lists are ascending and non-negative, sizes are non-negative, OfMany\'s shifted concatenation is ascending (Of\'s contract)'],
+)
